@@ -146,7 +146,17 @@ def generate(batch: str, r: Rng, idx: int, tier: str) -> Dict[str, Any]:
     if idx % 7 == 0:       # directed template share: guarantees the important probes
         feat.update({"timers": True, "imr_writes": True, "halt": idx % 14 == 0, "wait": True})
     n = r.child("len").choice([40, 60, 100, 160, 240] if executor == "rs-machine" else [40, 60, 100, 160])
+    rxs = r.child("xstack")
+    xstack = rxs.chance(1, 6)
+    if xstack:
+        feat["bare_reti"] = False      # hand-built frames are laid out below the default stack top
     scn = machine.gen_machine_scenario(r, executor, feat, boundaries=n, faulty=faulty)
+    if xstack:
+        # the system stack lives in a RAM expansion (an overlay on the bus, not the built-in RAM): interrupt frames are
+        # pushed to and popped from wherever S points, through the same bus as every other store and load
+        xs, xn = rxs.choice([[0x60000, 0x1000], [0x50000, 0x8000], [0x68000, 0x400]])
+        scn["expand"] = [[xs, xn]]
+        scn["regs"]["S"] = xs + xn - 0x10 * rxs.range(1, 8)
     rx = r.child("extra")
     if rx.chance(1, 2) and executor == "rs-machine":
         # the whole flag byte travels through interrupt frames, not only C and Z (a Rust program can load all eight
